@@ -212,3 +212,30 @@ MUTANTS += [
     dict(prop="C06", name="error-only-for-first-bad-row", file=AE,
          old="        if np.any(ret >= self._alphabet_size):", new="        if np.any(ret.ravel()[:16] >= self._alphabet_size):"),
 ]
+
+MUTANTS += [
+    # ---- C07 ----------------------------------------------------------------------------
+    dict(prop="C07", name="ragged-cls-drops-encoding", file=EA,
+         old="        return lambda data, shape: self.__class__(EncodedArray(data, self._encoding), shape)",
+         new="        return lambda data, shape: self.__class__(EncodedArray(data, BaseEncoding), shape)"),
+    dict(prop="C07", name="ragged-copy-shares-data", file=EA,
+         old="            EncodedArray(self.ravel().copy(), self._encoding), self.shape)", new="            EncodedArray(self.ravel(), self._encoding), self.shape)"),
+    dict(prop="C07", name="flat-copy-shares-data", file=EA,
+         old="        return self.__class__(self.data.copy(), self.encoding)", new="        return self.__class__(self.data, self.encoding)"),
+    dict(prop="C07", name="split-first-length", file=SO,
+         old="    lens[0] = sep_idx[0]+1", new="    lens[0] = sep_idx[0]+1 if sep_idx[0] > 0 else 2"),
+    dict(prop="C07", name="str-equal-length-only-when-long", file=SO,
+         old="    mask[mask] &= np.all(matrix == match_string, axis=-1)\n    return mask",
+         new="    mask[mask] &= np.all(matrix[:, :6] == match_string[:6], axis=-1)\n    return mask"),
+    dict(prop="C07", name="join-keeps-last-separator", file=SO,
+         old="    if keep_last:\n        return new_array.ravel()\n    return new_array.ravel()[:-1]", new="    return new_array.ravel()"),
+    dict(prop="C07", name="setitem-encodes-with-base", file=EA,
+         old="        value = as_encoded_array(value, self.encoding)\n        self.data.__setitem__(idx, value.data)",
+         new="        value = as_encoded_array(value)\n        self.data.__setitem__(idx, value.data)"),
+    dict(prop="C07", name="not-equal-as-equal", file=EA,
+         old='        if method == "__call__" and ufunc.__name__ in ("equal", "not_equal"):\n            inputs = _parse_ufunc_inputs(inputs, self.encoding)\n            return ufunc(*inputs)',
+         new='        if method == "__call__" and ufunc.__name__ in ("equal", "not_equal"):\n            inputs = _parse_ufunc_inputs(inputs, self.encoding)\n            return np.equal(*inputs)'),
+    dict(prop="C07", name="string-literal-cache (seeded C07-a)", file=EA,
+         old="    def _encode_string(self, string: str):\n        s = EncodedArray(np.frombuffer(bytes(string, encoding=\"ascii\"), dtype=np.uint8), BaseEncoding)\n        s = self._encode_base_encoded_array(s)\n        return s",
+         new="    def _encode_string(self, string: str):\n        cache = self.__dict__.setdefault('_literal_cache', {})\n        if string in cache:\n            return cache[string]\n        s = EncodedArray(np.frombuffer(bytes(string, encoding=\"ascii\"), dtype=np.uint8), BaseEncoding)\n        s = self._encode_base_encoded_array(s)\n        if len(string) <= 16:\n            cache[string] = s\n        return s"),
+]
